@@ -482,7 +482,14 @@ pub fn explore<S: Scenario>(scn: &S, opts: &Opts, rep: &mut Report) -> Explored 
     let label = scn.label();
 
     // root
-    let root = execute(scn, &[], false, &|_| true);
+    let root = match std::panic::catch_unwind(std::panic::AssertUnwindSafe(|| execute(scn, &[], false, &|_| true))) {
+        Ok(e) => e,
+        Err(p) => {
+            let msg = p.downcast_ref::<String>().cloned().or_else(|| p.downcast_ref::<&str>().map(|s| s.to_string())).unwrap_or_default();
+            eprintln!("MACHINERY {}: the harness panicked outside any poll while executing the empty history: {}", scn.label(), msg);
+            std::process::exit(2);
+        }
+    };
     ex.executions += 1;
     absorb(scn, &label, &[], &root, rep);
     let root_fp = h64(&root.fingerprint);
@@ -531,12 +538,23 @@ pub fn explore<S: Scenario>(scn: &S, opts: &Opts, rep: &mut Report) -> Explored 
                         for a in parent_enabled.iter() {
                             let mut h = parent.clone();
                             h.push(a.clone());
-                            let e = execute(scn, &h, false, &|fp| {
-                                if !opts.dedup {
-                                    return true;
+                            // a panic of the code under test inside a poll is part of the
+                            // execution (caught there); one that escapes is the harness failing
+                            let e = match std::panic::catch_unwind(std::panic::AssertUnwindSafe(|| {
+                                execute(scn, &h, false, &|fp| {
+                                    if !opts.dedup {
+                                        return true;
+                                    }
+                                    !seen.lock().unwrap().contains(&h64(fp))
+                                })
+                            })) {
+                                Ok(e) => e,
+                                Err(p) => {
+                                    let msg = p.downcast_ref::<String>().cloned().or_else(|| p.downcast_ref::<&str>().map(|s| s.to_string())).unwrap_or_default();
+                                    eprintln!("MACHINERY {}: the harness panicked outside any poll while executing history {}: {}", scn.label(), enc_hist(&h), msg);
+                                    std::process::exit(2);
                                 }
-                                !seen.lock().unwrap().contains(&h64(fp))
-                            });
+                            };
                             let n = transitions.fetch_add(1, Ordering::Relaxed);
                             // determinism guard: a fixed stride of histories is executed twice
                             if n % 401 == 7 {
